@@ -313,7 +313,13 @@ func runC16(o *out, r *rng, thorough bool, replay string) {
 		installResponder(sh, script)
 
 		cstore, _ := newMemStore(ctx, 0, initial)
-		for _, c := range honest[:have] {
+		// the node's own store may advance (GPBFT decisions) between the creation of the poller and the poll: the poller
+		// must then catch up to the store's head AND its power table (tables change from certificate to certificate)
+		h0 := have
+		if ri%3 != 0 && r.chance(50) {
+			h0 = r.intn(have + 1)
+		}
+		for _, c := range honest[:h0] {
 			must(cstore.Put(ctx, c))
 		}
 		client := &certexchange.Client{Host: ch, NetworkName: verifNet, RequestTimeout: 5 * time.Second}
@@ -361,7 +367,13 @@ func runC16(o *out, r *rng, thorough bool, replay string) {
 		} else {
 			p, err := polling.NewPoller(ctx, client, cstore, g.backend)
 			must(err)
-			before := p.NextInstance
+			for _, c := range honest[h0:have] {
+				must(cstore.Put(ctx, c)) // local progress after the poller was created
+			}
+			if h0 < have {
+				o.Dist["poll-after-local-progress"]++
+			}
+			before := uint64(have)
 			res, err := p.Poll(ctx, sh.ID())
 			in := map[string]any{"client_had": have, "honest_chain": total, "responses": descResp}
 			if err != nil {
@@ -386,6 +398,21 @@ func runC16(o *out, r *rng, thorough bool, replay string) {
 				}
 				if p.NextInstance != storeNext || p.NextInstance < before {
 					o.violate("poller advances exactly by the stored prefix", "poller-advance", in, fmt.Sprint(before, p.NextInstance, storeNext))
+				}
+				// the first response's valid prefix (the honest certificates have, have+1, ... in order) must be stored
+				if len(script) > 0 && !script[0].reset {
+					want := uint64(have)
+					for _, c := range script[0].certs {
+						if int(want) < len(honest) && c.GPBFTInstance == want && bytes.Equal(certBytes(c), certBytes(honest[want])) {
+							want++
+						} else {
+							break
+						}
+					}
+					if p.NextInstance < want {
+						o.violate("the poller stores the certificates that validate against its own current power table and advances exactly by that valid prefix", "poller-valid-prefix-not-stored", in,
+							fmt.Sprintf("valid prefix reaches instance %d, poller stopped at %d (status %s)", want, p.NextInstance, res.Status))
+					}
 				}
 				o.coqCase(fmt.Sprintf("poll %v", in),
 					fmt.Sprintf("match dpoll_c 8 %s %s PollMiss 0 [] with (nx, st, rc, stored) => andb (andb (Z.eqb nx %s) (Z.eqb (pstatus_code st) %d)) (andb (Nat.eqb rc %d) (if list_eq_dec Z.eq_dec stored %s then true else false)) end",
